@@ -65,3 +65,93 @@ fn min_vlog_file_id_enum() {
 	);
 	assert!(failures.is_empty());
 }
+
+/// C16 bounded check: every single-byte alteration (two patterns: ^0xff and ^0x01) at every offset of a
+/// small table file (excluding the last `skip_tail` bytes when given) must be DETECTED (open / get / scan
+/// returns an error) or HARMLESS (every answer identical to the pristine table); never different data,
+/// never a panic.  Bound (stated): one table of 40 keys x 2 versions, block size 256, default filter.
+fn damage_sweep_impl(from_tail: usize, skip_tail: usize, name: &str) {
+	let mut opts = Options::new();
+	opts.block_size = 256;
+	let opts = Arc::new(opts);
+	let mut buf = Vec::new();
+	let mut keys = Vec::new();
+	{
+		let mut w = TableWriter::new(&mut buf, 9, Arc::clone(&opts), 0);
+		for i in 0..40u64 {
+			for seq in [20u64, 10] {
+				let k = InternalKey::new(format!("key{i:03}").into_bytes(), seq + i * 100, InternalKeyKind::Set, 0);
+				w.add(k.clone(), format!("value-{i}-{seq}").as_bytes()).unwrap();
+				keys.push(k);
+			}
+		}
+		w.finish().unwrap();
+	}
+	let tmp = tempdir::TempDir::new("verif_c16").unwrap();
+	let answers = |data: Vec<u8>| -> std::result::Result<Vec<Option<(Vec<u8>, Vec<u8>)>>, String> {
+		let size = data.len() as u64;
+		// a real file (SysFile), as in production: reads past the end of the file return short counts
+		let path = tmp.path().join("t.sst");
+		std::fs::write(&path, &data).unwrap();
+		let file: Arc<dyn File> = Arc::new(std::fs::File::open(&path).unwrap());
+		// fresh Options (and therefore a fresh block cache) for every reading, so nothing read from the
+		// pristine copy can be served for the damaged one
+		let mut o = Options::new();
+		o.block_size = 256;
+		let t = Table::new(9, Arc::new(o), file, size).map_err(|e| e.to_string())?;
+		let mut out = Vec::new();
+		for k in &keys {
+			let probe = InternalKey::new(k.user_key.clone(), k.seq_num(), InternalKeyKind::Set, 0);
+			let r = t.get(&probe).map_err(|e| e.to_string())?;
+			out.push(r.map(|(ik, v)| (ik.encode(), v)));
+		}
+		Ok(out)
+	};
+	let pristine = answers(buf.clone()).unwrap();
+	assert!(pristine.iter().all(|a| a.is_some()));
+	let mut cases = 0u64;
+	let mut detected = 0u64;
+	let mut failures: Vec<String> = Vec::new();
+	let lo = if from_tail > 0 { buf.len().saturating_sub(from_tail) } else { 0 };
+	let hi = buf.len() - skip_tail;
+	for off in lo..hi {
+		for pat in [0xffu8, 0x01] {
+			cases += 1;
+			let mut d = buf.clone();
+			d[off] ^= pat;
+			let r = std::panic::catch_unwind(std::panic::AssertUnwindSafe(|| answers(d)));
+			match r {
+				Err(_) => {
+					if failures.len() < 5 {
+						failures.push(format!("{{\"offset\":{off},\"xor\":{pat},\"file_len\":{},\"outcome\":\"PANIC\"}}", buf.len()));
+					}
+				}
+				Ok(Err(_)) => detected += 1,
+				Ok(Ok(a)) => {
+					if a != pristine && failures.len() < 5 {
+						let nbad = a.iter().zip(pristine.iter()).filter(|(x, y)| x != y).count();
+						let missing = a.iter().filter(|x| x.is_none()).count();
+						failures.push(format!("{{\"offset\":{off},\"xor\":{pat},\"file_len\":{},\"outcome\":\"different data served without error: {nbad} of {} lookups differ ({missing} report the key as absent)\"}}", buf.len(), a.len()));
+					}
+				}
+			}
+		}
+	}
+	println!(
+		"REPLAY-RESULT {{\"driver\":\"sstable::table::{name}\",\"cases\":{cases},\"distinct_nontrivial\":{detected},\"failures\":[{}]}}",
+		failures.join(",")
+	);
+	assert!(failures.is_empty());
+}
+
+#[test]
+fn damage_sweep_body() {
+	// everything except the 50-byte footer (block handles in the footer are not covered by any checksum)
+	damage_sweep_impl(0, 50, "damage_sweep_body");
+}
+
+#[test]
+fn damage_sweep_footer() {
+	// the last 50 bytes: footer (format, checksum type, two varint block handles, padding, magic)
+	damage_sweep_impl(50, 0, "damage_sweep_footer");
+}
